@@ -9,6 +9,9 @@
 (*   ev    "Ols" | "Ridge"          prec  "f64" | "f32"                    *)
 (*   S     fixed-point scale        X, y  integer data (n x p, n)          *)
 (*   aN, aE, normalize              (ridge) alpha = aN / 2^aE              *)
+(*   backend "dense" | "ndarray": the matrix type the problem was given in  *)
+(*         (ndarray: X column-major, y an Array1 with negative stride --    *)
+(*         logically the same data, so the same contract applies)          *)
 (*   fits  sequence of [solver, status, fin, W, B, Yhat]                   *)
 (*         status "ok" | "err" | "panic"; fin = all outputs finite and     *)
 (*         inside the quantiser's range (W, B, Yhat are only meaningful    *)
@@ -67,7 +70,8 @@ HitName(e) ==
     IF e.ev = "Ols" THEN "Ols_" \o e.prec
     ELSE (IF e.normalize THEN "RidgeStd_" ELSE "RidgeRaw_") \o e.prec
 
-HitNames == {"Ols_f64", "Ols_f32", "RidgeStd_f64", "RidgeStd_f32", "RidgeRaw_f64", "RidgeRaw_f32"}
+HitNames == {"Ols_f64", "Ols_f32", "RidgeStd_f64", "RidgeStd_f32", "RidgeRaw_f64", "RidgeRaw_f32",
+             "Backend_dense", "Backend_ndarray"}                 \* second counter
 ASSUME \A i \in 1..Len(Rec) : ~(Rec[i].ev = "Ridge" /\ Rec[i].normalize /\ Rec[i].prec = "f32")
 
 Step ==
@@ -75,7 +79,7 @@ Step ==
     /\ LET e == Rec[l] c == EventClause(Rec[l]) IN
          /\ IF c = "" THEN nbad' = nbad
             ELSE PrintT(<<"BAD", l, e.run, e.ev, c>>) /\ nbad' = nbad + 1
-         /\ hits' = [hits EXCEPT ![HitName(e)] = @ + 1]
+         /\ hits' = [hits EXCEPT ![HitName(e)] = @ + 1, !["Backend_" \o e.backend] = @ + 1]
     /\ l' = l + 1
 
 Init == l = 1 /\ nbad = 0 /\ hits = [x \in HitNames |-> 0]
